@@ -1357,3 +1357,7 @@ def run(ctx, shard):
         for with_I in (True, False):
             M.seen_basis.setdefault((d, 1, with_I), True)
     cache_integrity(ctx, M, numqi)
+
+
+# thorough tier: every random shard is run this many times with independent random streams (see vmon/runner.py get_shards)
+THOROUGH_REPEAT = 8
